@@ -4,7 +4,7 @@ NAME=$1; D=/tmp/scr/confirm_$NAME
 rm -rf $D; mkdir -p $D
 git -C /repo archive HEAD src tests pyproject.toml | tar -x -C $D
 (cd $D && patch -p1 -s < /verif/seeded/$NAME/patch.diff) || { echo "$NAME: patch does not apply"; exit 9; }
-suite=$(cd $D && PYTHONPATH=$D/src /venv/bin/python -m pytest -q -p no:cacheprovider -n 8 --timeout=900 tests 2>&1 | tail -1)
+suite=$(cd $D && PYTHONPATH=$D/src timeout 600 /venv/bin/python -m pytest -q -p no:cacheprovider -n 8 --timeout=60 --timeout-method=thread tests 2>&1 | tail -1)
 demo=$(ls /verif/seeded/$NAME/demo_*.py | head -1)
 (cd /tmp && PYTHONPATH=$D/src timeout 300 /venv/bin/python $demo >/dev/null 2>&1); rc=$?
 (cd /tmp && PYTHONPATH=/repo/src timeout 300 /venv/bin/python $demo >/dev/null 2>&1); rc0=$?
